@@ -1570,6 +1570,73 @@ MV_LEAN_FIELD = {"tracked_value": "tracked_value", "_tracked_keys": "tracked_key
 MV_METHODS = {"update": (["values"], None), "__call__": ([], "DictK"), "get_normalized": ([], "DictK")}
 
 
+class MeanFn(NormFn):
+    """`_get_mean_model_output` (ixai/explainer/base.py): additionally `{l for o in outs for l in o}` (a set of labels; iterated in order of
+    first appearance), `o.get(l, 0)`, `sum([...])` of a list of numbers"""
+    supports_helpers = False
+
+    def expr(self, e, allow_eff=True):
+        if isinstance(e, ast.SetComp) and len(e.generators) == 2 and all(not g.ifs and isinstance(g.target, ast.Name) for g in e.generators) \
+                and isinstance(e.elt, ast.Name) and e.elt.id == e.generators[1].target.id \
+                and isinstance(e.generators[1].iter, ast.Name) and e.generators[1].iter.id == e.generators[0].target.id:
+            outs, ot, _ = self.expr(e.generators[0].iter, allow_eff=False)
+            if norm(ot) != "ListDictK":
+                self.err(e, "set comprehension over something other than a list of outputs")
+            return (f"({outs}.foldl (fun acc_ o_ => o_.keys.foldl (fun acc_ k_ => if acc_.contains k_ then acc_ else acc_ ++ [k_]) acc_) [])",
+                    "ListNat", False)
+        return super().expr(e, allow_eff)
+
+    def call(self, e, allow_eff):
+        f = e.func
+        if isinstance(f, ast.Attribute) and f.attr == "get" and len(e.args) == 2 and not e.keywords:
+            d, dt, _ = self.expr(f.value, allow_eff)
+            if norm(dt) == "DictK":
+                k, kt, _ = self.expr(e.args[0], allow_eff)
+                dv, dvt, _ = self.expr(e.args[1], allow_eff)
+                return f"({d}.getD {self.asNat(k, kt, e)} {self.asK(dv, dvt, e)})", "K", False
+        if ast.unparse(f) == "sum" and len(e.args) == 1 and not e.keywords:
+            v, t, _ = self.expr(e.args[0], allow_eff)
+            if norm(t) == "ListK":
+                return f"(lsum {v})", "K", False
+        if ast.unparse(f) == "len" and len(e.args) == 1:
+            v, t, _ = self.expr(e.args[0], allow_eff)
+            if norm(t) in ("ListDictK", "ListNat", "ListK"):
+                return f"({v}).length", "Nat", False
+        return super().call(e, allow_eff)
+
+
+def translate_mean_output(repo):
+    rel = "ixai/explainer/base.py"
+    text = open(os.path.join(repo, rel)).read()
+    tree = ast.parse(text, filename=rel)
+    fns = [n for n in tree.body if isinstance(n, ast.FunctionDef) and n.name == "_get_mean_model_output"]
+    if len(fns) != 1:
+        raise Unsupported(f"{rel}: _get_mean_model_output not found")
+    fn = fns[0]
+    if [a.arg for a in fn.args.args] != ["model_outputs"]:
+        raise Unsupported(f"{rel}:{fn.lineno}: signature of _get_mean_model_output changed")
+
+    class S_:
+        pass
+    src = S_()
+    src.find_method = lambda c, m: (None, None, None)
+    src.find_property = lambda c, m: None
+    f = MeanFn(src, "base", fn, rel)
+    f.helper_mode, f.ret_type, f.deferred_types = True, None, []
+    f.env["model_outputs"] = Var("model_outputs", "ListDictK")
+    body = f.block(fn.body, f.new_scope())
+    if f.ret_type != "DictK":
+        raise Unsupported(f"{rel}:{fn.lineno}: _get_mean_model_output returns {f.ret_type}")
+    btxt = "\n".join("  " + x for x in body)
+    sha = hashlib.sha256(text.encode()).hexdigest()[:16]
+    head = (f"/-\n  GENERATED by tools/py2lean_eff.py from {rel} — do not edit.\n  sha256: {sha}\n"
+            "  `_get_mean_model_output` statement by statement.\n-/\n"
+            "import IxaiVerif.Model.Dict\n\nnamespace Ixai.Gen\nopen Ixai\n\n"
+            "variable {K : Type} [Add K] [Div K] [NatCast K] [OfNat K 0]\n\n"
+            "def get_mean_model_output (model_outputs : List (Dict K)) : Dict K := Id.run do\n")
+    return head + btxt + "\n\nend Ixai.Gen\n", [rel], sha
+
+
 class MVFn(NormFn):
     supports_helpers = False
     def self_attr(self, e):
@@ -2022,6 +2089,16 @@ def generate(repo=None, outdir=None):
         report["BatchSage"] = {"sources": rels, "sha256": sha, "changed": old != text}
     except (Unsupported, SyntaxError, OSError) as ex:
         report["BatchSage"] = {"sources": [BATCH_FILES["BatchSage"]], "sha256": "", "changed": False, "error": str(ex)}
+    try:
+        text, rels, sha = translate_mean_output(repo)
+        path = os.path.join(outdir, "MeanModelOutput.lean")
+        old = open(path).read() if os.path.exists(path) else None
+        if old != text:
+            with open(path, "w") as fh:
+                fh.write(text)
+        report["MeanModelOutput"] = {"sources": rels, "sha256": sha, "changed": old != text}
+    except (Unsupported, SyntaxError, OSError, IndexError, KeyError) as ex:
+        report["MeanModelOutput"] = {"sources": ["ixai/explainer/base.py"], "sha256": "", "changed": False, "error": str(ex)}
     try:
         text, rels, sha = translate_tree(repo)
         path = os.path.join(outdir, "TreeStorageBookkeeping.lean")
